@@ -57,6 +57,8 @@ def run_property(pid, tier, repo_root, write=True, out=print, evidence_dir=None,
         out('ANALYSIS-ERROR property=%s (after the violations below) %s' % (pid, e))
     known, _f = load_known()
     unknown = [o for o in report.violated() if (pid, o.key) not in known]
+    if os.environ.get('SA_NO_CONTROLS') == '1':
+        controls = False
     if controls and unknown:
         # the tree already violates the property: report that; controls (which are relative to a passing base)
         # would only mask it
